@@ -257,7 +257,10 @@ main(int argc, char **argv)
 	esl_dst_XAverageId(abc, msa->ax, msa->nseq, max_comparisons, &avgid);
       }
       else { /* --small invoked */
-	for(i = 0; i < alen; i++) nres += (int) esl_vec_DSum(abc_ct[i], abc->K);
+	/* abc_ct[i][] holds fractional counts for degenerate residues (esl_abc_DCount): their sum over a column is a
+	 * whole number only up to rounding error (1/3+1/3+1/3 + 1/3+1/3+1/3 = 1.9999999999999998 for a 'B' and an 'H'),
+	 * so round to the nearest integer instead of truncating. */
+	for(i = 0; i < alen; i++) nres += (int64_t) (esl_vec_DSum(abc_ct[i], abc->K) + 0.5);
       }
 
       if (esl_opt_GetBoolean(go, "-1")) 
